@@ -150,7 +150,7 @@ def mkdata(P, tn, tres, keys, mixed=False):
 def typeof_for(kind):
     if kind in ("tres", "plain_tres", "cdt"):
         def typeof(res, abstract, ptype, fname):
-            if (ptype, fname) == ("Query", "u"):
+            if (ptype, fname) in (("Query", "u"), ("Query", "node")):
                 return world.read(res, "tr_field")
             if abstract == "Node":
                 return world.read(res, "tr_node")
